@@ -229,6 +229,16 @@ func (s *serfQueries) sendKeyResponse(q *Query, resp *nodeKeyResponse) {
 	}
 }
 
+// decodeKeyRequest decodes the payload of a key query: a message type byte
+// followed by the encoded request. The payload comes off the network and may
+// be empty.
+func decodeKeyRequest(payload []byte, req *keyRequest) error {
+	if len(payload) < 1 {
+		return fmt.Errorf("empty key request")
+	}
+	return decodeMessage(payload[1:], req)
+}
+
 // handleInstallKey is invoked whenever a new encryption key is received from
 // another member in the cluster, and handles the process of installing it onto
 // the memberlist keyring. This type of query may fail if the provided key does
@@ -239,7 +249,7 @@ func (s *serfQueries) handleInstallKey(q *Query) {
 	keyring := s.serf.config.MemberlistConfig.Keyring
 	req := keyRequest{}
 
-	err := decodeMessage(q.Payload[1:], &req)
+	err := decodeKeyRequest(q.Payload, &req)
 	if err != nil {
 		s.logger.Printf("[ERR] serf: Failed to decode key request: %v", err)
 		goto SEND
@@ -281,7 +291,7 @@ func (s *serfQueries) handleUseKey(q *Query) {
 	keyring := s.serf.config.MemberlistConfig.Keyring
 	req := keyRequest{}
 
-	err := decodeMessage(q.Payload[1:], &req)
+	err := decodeKeyRequest(q.Payload, &req)
 	if err != nil {
 		s.logger.Printf("[ERR] serf: Failed to decode key request: %v", err)
 		goto SEND
@@ -321,7 +331,7 @@ func (s *serfQueries) handleRemoveKey(q *Query) {
 	keyring := s.serf.config.MemberlistConfig.Keyring
 	req := keyRequest{}
 
-	err := decodeMessage(q.Payload[1:], &req)
+	err := decodeKeyRequest(q.Payload, &req)
 	if err != nil {
 		s.logger.Printf("[ERR] serf: Failed to decode key request: %v", err)
 		goto SEND
